@@ -283,7 +283,7 @@ fn stats_json(st: &Stats) -> serde_json::Value {
         "distinct": st.distinct.len(),
         "probes": st.probes, "cells": cells,
         "fault_kinds": {"alloc_fail_1st": st.fired[0], "alloc_fail_2nd": st.fired[1], "alloc_fail_3rd": st.fired[2], "alloc_fail_all": st.fired[3], "alloc_exhausted": st.fired[4]},
-        "recycled_frames": st.recycled, "views": st.views, "filtered_misuse_steps": st.filtered,
+        "recycled_frames": st.recycled, "views_and_environment_variants": st.views, "filtered_misuse_steps": st.filtered,
         "mmu_faults_resolved": st.mmu_faults, "trapped_instructions": st.trapped, "deallocations": st.deallocs,
         "cleanup_model_agree": st.cleanup_model_agree, "cleanup_model_differ": st.cleanup_model_differ,
         "enumerated_failure_masks": st.enum_masks, "enumerated_ranges": st.enum_ranges,
